@@ -63,6 +63,10 @@ def TypeExpr.eval (c : Caps) : TypeExpr → Option Str
   | .ifMax a b => some (if c.maxTypes then a else b)
   | .err => none
 
+inductive LitDb where
+  | mysql | postgres | plain
+deriving DecidableEq, Repr
+
 /-- the conditions of `_extraSQL`, in source order -/
 inductive Extra where
   | notNull     -- `if self.notNone or self.alternateID`
@@ -96,7 +100,8 @@ structure Tables where
   currencySize : Nat
   currencyPrecision : Nat
   enumMysql : Str × Str             -- "ENUM(" , ")"
-  enumMysqlNotNull : Str            -- what follows ")" + blank when None is not a value
+  enumMysqlExtra : Str              -- what follows ")" + blank when None is not a value ("" since the fix)
+  enumLit : Dialect → LitDb         -- which `sqlrepr` dialect renders the values
   enumVarchar : Str × Str           -- "VARCHAR(" , ")"
   enumCheck : Str × Str × Str       -- "CHECK (" , " in (" , "))"
   enumSep : Str                     -- ", "
@@ -113,10 +118,6 @@ structure Tables where
   indent : Str                      -- "    "
 
 /-! ### string literals as `sqlrepr` renders them (hand-modelled, tied by string equality) -/
-
-inductive LitDb where
-  | mysql | postgres | plain
-deriving DecidableEq, Repr
 
 def escFull (c : Nat) : Str :=
   if c = 39 then [39, 39] else if c = 92 then [92, 92] else if c = 0 then [92, 48]
